@@ -251,6 +251,19 @@ def run(ctx):
                 rs.append(scen_text(n, d, logform, upd, mag, pdf, s0, rng, w, delta, whole))
                 split_pairs.append((len(rs) - 2, len(rs) - 1))
     scen_sets.append(("random", rs))
+    # the same kind of environments with the chain states replaced between runs (setState on a warm object)
+    es = []
+    for mode in ["user", "none", "uniform"]:
+        for _ in range(nrand // 12):
+            txt, params = random_scen(rnd, mode)
+            (n, d, logform, upd, mag, pdf, s0, rng, w, delta, runs) = params
+            runs = list(runs)
+            for _k in range(rnd.randint(1, 2)):
+                runs.insert(rnd.randrange(1, len(runs) + 1), (-1, rnd.randint(0, max(n - 1, 0))))
+            if rnd.random() < 0.7:
+                runs.append((rnd.randint(0, 1), rnd.randint(1, 2)))
+            es.append(scen_text(n, d, logform, upd, mag, pdf, s0, rng, w, delta, runs))
+    scen_sets.append(("edits", es))
 
     # ---- run the real code
     files = []
